@@ -517,6 +517,35 @@ fn rendezvous_drops(rep: &mut Report, pairs: usize, rounds: usize, seed: u64) {
         rep.add("stress.swell_keeper_lookups", asked);
         drop(keeper);
     }
+    // unwinding: threads that die (for a reason of their own) while holding the last handles of unique strings. Their
+    // handles are dropped by the unwinder; the table must be just as empty afterwards as after an orderly exit.
+    {
+        let mut dying = vec![];
+        for t in 0..pairs.max(2) * 4 {
+            dying.push(std::thread::spawn(move || {
+                let _ = crate::report::catch(|| {
+                    let held: Vec<SharedString> = (0..25)
+                        .map(|i| {
+                            let mut b = content_bytes(tag, 249);
+                            b.extend_from_slice(&(t as u32).to_le_bytes());
+                            b.extend_from_slice(&(i as u32).to_le_bytes());
+                            b.extend_from_slice(&seed.to_le_bytes());
+                            SharedString::new(b)
+                        })
+                        .collect();
+                    let shared_with_nobody = held.len();
+                    if shared_with_nobody > 0 {
+                        panic!("worker gives up (deliberate, part of the workload)");
+                    }
+                    drop(held);
+                });
+            }));
+        }
+        for d in dying {
+            let _ = d.join();
+        }
+        rep.add("stress.handles_dropped_by_unwinding", (pairs.max(2) * 4 * 25) as u64);
+    }
     // ping-pong: both threads of a pair run new()+drop of the SAME content a few times, in step, then move on to a
     // content that never comes back. One thread's table clean-up keeps meeting the other's new() and drop of that
     // content (slot dead / re-populated / released again), and whatever is left behind when the pair moves on stays.
